@@ -34,10 +34,10 @@ inductive GTok (regs : Regs) : List Tok → AST → Prop
   | paren {ts : List Tok} {e : AST} : GExpr regs ts e → GTok regs (tOpen :: (ts ++ [tClose])) e
   | list {ts : List Tok} {xs : List AST} : GItems regs ts xs → GTok regs (tOpenB :: (ts ++ [tCloseB])) (.list xs)
   | map {ts : List Tok} {kvs : List (AST × AST)} : GEntries regs ts kvs → GTok regs (tOpenC :: (ts ++ [tCloseC])) (.map kvs)
-/-- a token-level expression with at most one postfix operator -/
+/-- a token-level expression followed by any number of postfix operators -/
 inductive GPrim (regs : Regs) : List Tok → AST → Prop
   | tok {ts : List Tok} {e : AST} : GTok regs ts e → GPrim regs ts e
-  | postfix {ts : List Tok} {e : AST} {o : Name} : GTok regs ts e → regs.isPostfix o = true → GPrim regs (ts ++ [.op o]) (.postfix e o)
+  | postfix {ts : List Tok} {e : AST} {o : Name} : GPrim regs ts e → regs.isPostfix o = true → GPrim regs (ts ++ [.op o]) (.postfix e o)
 /-- chains of infix operators (optionally negated with `not`), in some grouping -/
 inductive GBin (regs : Regs) : List Tok → AST → Prop
   | prim {ts : List Tok} {e : AST} : GPrim regs ts e → GBin regs ts e
